@@ -47,7 +47,7 @@ struct Sched {
     int next_obj = 1;
     ::std::unordered_map<const void*, ::std::vector<int>> cv_waiters;
     ::std::unordered_map<const void*, Shadow> shadow;
-    long progress = 0, spin_wake_progress = -1;
+    long progress = 0, spin_wake_progress = -1, spin_wakes = 0;
     unsigned hwc = 4;
     bool aborting = false;
 };
@@ -133,10 +133,15 @@ void deadlock(Sched& s, ::std::unique_lock<::std::mutex>& lk) {
     // spinning threads get one more chance (a repeated identical load is only *probably* a spin loop)
     bool any_spin = false;
     for (auto& t : s.th) if (t.st == SPIN) any_spin = true;
-    if (any_spin && s.spin_wake_progress != s.progress) {
-        s.spin_wake_progress = s.progress;
-        for (auto& t : s.th) if (t.st == SPIN) { t.st = RUN; t.read_streak = 0; }
-        return;
+    // A thread that re-reads an unchanged atomic is only *probably* spinning: it may be polling inside a finite loop
+    // (e.g. ThreadPool::has_idle() between chunks of sequential work).  Parked readers are therefore released again and
+    // again; only when nothing else happened for a long series of such releases is the situation a livelock.
+    if (any_spin) {
+        if (s.spin_wake_progress != s.progress) { s.spin_wake_progress = s.progress; s.spin_wakes = 0; }
+        if (++s.spin_wakes <= 200000) {
+            for (auto& t : s.th) if (t.st == SPIN) { t.st = RUN; t.read_streak = 0; }
+            return;
+        }
     }
     s.res.deadlock = true;
     describe_blocked(s);
@@ -426,7 +431,7 @@ Result run(const ::std::function<void()>& main_fn, const Config& cfg) {
         s.cfg = cfg; s.res = Result(); s.rng.seed(cfg.seed * 0x9E3779B97F4A7C15ULL + 7);
         s.th.clear(); s.th.emplace_back(); s.th[0].id = 0; s.th[0].st = RUN; s.th[0].vc.c[0] = 1; s.th[0].prio = 1500;
         s.cur = 0; s.script_pos = s.waiter_pos = 0; s.cv_waiters.clear(); s.shadow.clear();
-        s.progress = 0; s.spin_wake_progress = -1;
+        s.progress = 0; s.spin_wake_progress = -1; s.spin_wakes = 0;
         s.pct_change.clear();
         for (int i = 1; i < cfg.pct_depth; ++i) s.pct_change.push_back(1 + (long)(s.rng() % (cfg.pct_steps > 0 ? cfg.pct_steps : 1)));
         tl_self = 0;
